@@ -38,8 +38,11 @@ CHECKS = {
             "Proved for all valid NFAs/DFAs (unbounded): whenever the subset construction returns (always up to 14 NFA states; fixed large "
             "budget beyond) the result is a valid DFA with exactly the NFA's language; NFA.from_dfa gives a valid NFA with the DFA's language; "
             "the comparators nfa_diff / nfa_dfa_diff used to judge implementation results decide language equality exactly. "
-            "eliminate_lambda (mirror model shared with C08): total, valid result, same language, no empty-string transition left; "
-            "'no unreachable state' is checked on the implementation's result by extracted code on every run, not proved of the model.",
+            "eliminate_lambda (mirror model shared with C08): total, valid result, same language, no empty-string transition left, every "
+            "state of the result is the end of a path from its initial state (C07_eliminate_lambda). The two flags computed by extracted "
+            "code on the implementation's result on every run are proved exact (C07_flags_exact): has_eps_key = false iff no row has an "
+            "empty-string key; all_reachable = Ok true iff every state is graph-reachable from the initial state (= word-reachable when "
+            "no row lists a key twice).",
             "", "7/C07"),
     "C09": ("Coq theorems about the verified NFA comparator (subset construction on the fly) + differential correspondence",
             "Proved for all valid NFA pairs (unbounded): whenever == / != return (always for <= 14 states in total) they are exactly language "
